@@ -317,15 +317,21 @@ ARGMAP = {"none": None}
 class C12:
     prop = "C12"
     lean_module = "Ogorek.Props.C12"
-    theorems = ["Ogorek.C12_reject", "Ogorek.C12_facts"]
+    theorems = ["Ogorek.C12_conforms_bin", "Ogorek.scans_val", "Ogorek.scanLoop_run", "Ogorek.C12_reject", "Ogorek.C12_facts"]
     trusted_base = TB_COMMON + ["the opcode table of Ogorek/Opcodes.lean (transcribed from pickletools; diffed against pickletools.opcodes of CPython 3.11 on every run)"]
-    level_text = ("Lean theorems: a protocol outside 0-5 is rejected with nothing written (C12_reject); highestProtocol in the source is the "
-                  "model's (C12_facts). PARTIAL: conformance of every emitted opcode to the requested protocol for ALL values is not yet a "
-                  "closed theorem; it is decided per run by scanning the IMPLEMENTATION's bytes with the independent Lean scanner "
-                  "(Ogorek/Opcodes.lean: opcode -> introducing protocol, argument layout, stack effect; table diffed against "
-                  "pickletools.opcodes each run) and cross-checked with pickletools.genops, while the model must emit the same chunks.")
+    level_text = ("Lean theorem C12_conforms_bin: for EVERY value (any nesting; application structs, unsigned ints, maps and Dicts included) "
+                  "with payloads < 2^32 bytes and every protocol p in 1..5, if Encode returns no error its output passes the independent "
+                  "opcode scanner (Ogorek/Opcodes.lean: opcode -> introducing protocol, argument layout, stack effect): it begins with PROTO p "
+                  "exactly when p >= 2 and holds no other PROTO, every opcode was introduced in a protocol <= p, the stack discipline holds "
+                  "at every opcode, and the single STOP at the very end finds exactly one object - by mutual structural induction over the "
+                  "value (scans_val: each fragment scans as table opcodes of protocols <= p with net effect 'push one object') and a "
+                  "run lemma for the scanner (scanLoop_run). A protocol outside 0-5 is rejected with nothing written (C12_reject); "
+                  "highestProtocol in the source is the model's (C12_facts). PARTIAL: protocol 0 (needs newline-freeness of float text and "
+                  "of the two text codecs' output) is not in the theorem; it is decided per run by scanning the IMPLEMENTATION's bytes "
+                  "with the same scanner (table diffed against pickletools.opcodes each run) and cross-checked with pickletools.genops, "
+                  "while the model must emit the same chunks.")
     level_note = ("trusted: Lean kernel + standard axioms; encoder model; the transcribed opcode table (checked against CPython's pickletools on every run)")
-    technique = "Lean 4 proof over the encoder model + scan of the implementation's bytes with an independent opcode table (Lean) cross-checked by pickletools.genops"
+    technique = "Lean 4 proof (structural induction: the encoder's output passes an independent opcode-table scanner for protocols 1-5) + scan of the implementation's bytes with the same table, cross-checked by pickletools.genops"
     rule = ("values of the documented encoder table (incl. uint, typed relatives, ByteString/string in both modes, Calls, Refs, persistent "
             "ids, every size class 0/1/255/256/65536) x protocols -1..7 x StrictUnicode; the implementation's output is scanned with the "
             "Lean scanner (opcode -> introducing protocol, argument layout, stack effect) and with pickletools.genops; distinct = distinct "
